@@ -120,6 +120,9 @@ structure EpSt where
   /-- a T3 expiry happened while data was outstanding and not everything has been acknowledged since
   (the code then restarts its `flight_size` from 0, RFC 4960 §6.3.3: outstanding chunks presumed lost) -/
   afterT3   : Bool := false
+  /-- T3 expiries since everything was last acknowledged; the largest window ever advertised -/
+  t3Count   : Nat := 0
+  maxRwnd   : Nat := 0
   /-- a DATA / FORWARD-TSN chunk was received since the last SACK went out -/
   owesSack  : Bool := false
   /-- SACKs sent without owing one since the last datagram came in (the delayed-SACK logic may repeat
@@ -168,7 +171,7 @@ def epRxChunk (st : EpSt) (c : RawChunk) : EpSt :=
   let ty := c.ty.toNat
   if ty == ctInit || ty == ctInitAck then
     match parseInit c.value with
-    | some (_, arwnd, _, _) => { st with rwnd := arwnd.toNat, bestRwnd := if st.cumAcked.isNone then arwnd.toNat else st.bestRwnd }
+    | some (_, arwnd, _, _) => { st with rwnd := arwnd.toNat, maxRwnd := max st.maxRwnd arwnd.toNat, bestRwnd := if st.cumAcked.isNone then arwnd.toNat else st.bestRwnd }
     | none => st
   else if ty == ctSack then
     match parseSack c.value with
@@ -182,11 +185,13 @@ def epRxChunk (st : EpSt) (c : RawChunk) : EpSt :=
         | some old => tsnGt old cum
         | none => false
       let st := if overtaken then st else { st with rwnd := arwnd.toNat }
+      let st := { st with maxRwnd := max st.maxRwnd arwnd.toNat }
       if newer then
         -- at an unchanged cumulative TSN the receiver's window can only have shrunk (more is queued)
         let rw := if st.cumAcked == some cum then min st.bestRwnd arwnd.toNat else arwnd.toNat
         let un := (st.unacked.filter (fun e => tsnGt e.1 cum)).map (fun e => (e.1, e.2.1, e.2.2 || inGaps cum gaps e.1))
-        { st with cumAcked := some cum, bestRwnd := rw, unacked := un, afterT3 := st.afterT3 && !un.isEmpty }
+        { st with cumAcked := some cum, bestRwnd := rw, unacked := un, afterT3 := st.afterT3 && !un.isEmpty,
+                  t3Count := if un.isEmpty then 0 else st.t3Count }
       else
         { st with unacked := st.unacked.map (fun e => (e.1, e.2.1, e.2.2 || inGaps cum gaps e.1)) }
     | none => st
@@ -223,8 +228,12 @@ def epTxChunk (idx : Nat) (st : EpSt) (c : RawChunk) : EpSt :=
           let over := st.outstanding - st.bestRwnd
           let st := { st with maxOver := max st.maxOver over }
           if over > sctpMaxPacket then
-            setViol st (if st.afterT3 then s!"window-overshoot-after-t3:{st.outstanding}>{st.bestRwnd}@{idx}"
-                        else if st.rwnd > st.bestRwnd then s!"window-overshoot-stale-sack:{st.outstanding}>{st.bestRwnd}@{idx}"
+            -- the two recorded causes excuse a *bounded* overshoot only: each T3 restarts the flight count, i.e. lets one
+            -- more window (plus the one-chunk overshoot) leave; a stale SACK is believed up to the window it advertised
+            let t3Excuse := st.afterT3 && over ≤ st.t3Count * (st.maxRwnd + sctpMaxPacket) + sctpMaxPacket
+            let staleExcuse := st.rwnd > st.bestRwnd && st.outstanding ≤ st.rwnd + sctpMaxPacket
+            setViol st (if t3Excuse then s!"window-overshoot-after-t3:{st.outstanding}>{st.bestRwnd}@{idx}"
+                        else if staleExcuse then s!"window-overshoot-stale-sack:{st.outstanding}>{st.bestRwnd}@{idx}"
                         else s!"window-overshoot:{st.outstanding}>{st.bestRwnd}@{idx}")
           else st
         else st
@@ -236,7 +245,7 @@ def epTxChunk (idx : Nat) (st : EpSt) (c : RawChunk) : EpSt :=
 def epStep (cfg : List (UInt16 × Nat)) (st : EpSt) (idx : Nat) (ev : TEv) : EpSt :=
   match ev with
   | .loop => st
-  | .t3 => { st with afterT3 := !st.unacked.isEmpty }
+  | .t3 => { st with afterT3 := !st.unacked.isEmpty, t3Count := if st.unacked.isEmpty then 0 else st.t3Count + 1 }
   | .enq chan _ len => { st with outQ := st.outQ ++ fragSizes (mpsOf cfg chan) len }
   | .rx p =>
     let st := { st with freeSacks := 0 }
